@@ -8,7 +8,7 @@ TEXTS = {
                  "allocator is only stored into / compared with the one hooks table, every allocation/release call is an "
                  "indirect call through a value proven to be a copy of that table, realloc is used only under a non-NULL test "
                  "and installed only when both defaults are in place (all paths of the installer enumerated); no access path is released "
-                 "twice on a feasible path (DBL1, the 'at most once' half of exactly-once). Decides the "
+                 "twice on a feasible path (DBL1, the 'at most once' half of exactly-once), and a node is marked as owning its key or payload only where it does (OWN9: otherwise the release function would be handed a pointer the allocation function never returned). Decides the "
                  "whole statement except 'no block is lost' (C07/C08). A census over every call site rather than over the call sites a "
                  "history happens to execute.",
         'note': COMMON_NOTE + " Not decided: 'exactly once' (C07), behaviour of user hooks.",
@@ -65,10 +65,10 @@ TEXTS = {
     'C18': {
         'level': "Decides that case sensitivity is honoured at every nesting level of merge-patch application and generation "
                  "(TAB11 over everything reachable from the four entry points) and that generation leaves its sorted inputs "
-                 "well-formed (LST1, LST5). RFC 7396 enters as three structural necessary conditions on the applying code (MRG1-3): a patch "
+                 "well-formed (LST1, LST5). RFC 7396 enters as four structural necessary conditions on the applying code (MRG1-4): a patch "
                  "value is copied verbatim only where it is known not to be an object, members are removed only under a null patch "
                  "value and set only otherwise, and member operations happen only on a target known to be an object (tested or "
-                 "freshly created). The merged value itself is not decided.",
+                 "freshly created), and what enters the target goes in through a keyed insertion named by the patch member. The merged value itself is not decided.",
         'note': COMMON_NOTE + " Not decided: RFC 7396 results.",
         'technique': 'static analysis: flag propagation over the call graph with false-arm regions on the CFG; child-store/tail-link pairing; role inference (target/patch) with guard dominance and a must-be-object dataflow',
         'ref': 'DESIGN.md 4 C18; 3 TAB11 LST1 LST5',
@@ -100,7 +100,7 @@ TEXTS.update({
         'ref': 'DESIGN.md 4 C10; 3 BND5 BND1 TAB2',
     },
     'C13': {
-        'level': "Decides the safety sentence (reads and writes stay within the terminator, result no longer, loops terminate as far as cursor progress goes) by dataflow on NUL-terminated cursors (non-terminator byte counts), an in-place lag analysis of write vs read cursor, and a gap analysis of the write cursor; plus the scanner rule that every backslash pair is consumed alike. Value preservation and idempotence are not decided.",
+        'level': "Decides the safety sentence (reads and writes stay within the terminator, result no longer, loops terminate as far as cursor progress goes) by dataflow on NUL-terminated cursors (non-terminator byte counts), an in-place lag analysis of write vs read cursor (block moves inside the string included: memmove with the destination not ahead of the source; memcpy between positions an input-dependent distance apart is reported), and a gap analysis of the write cursor; plus the scanner rule that every backslash pair is consumed alike. Value preservation and idempotence are not decided.",
         'note': COMMON_NOTE + " Entry assumption: json is a NUL-terminated string (API contract).",
         'technique': 'static analysis: forward dataflow (non-terminator counts, read/write lag, must-written sets) with inferred callee requirements',
         'ref': 'DESIGN.md 4 C13; 3 BND3 OUT5 OUT6 BND6 TAB13',
@@ -134,13 +134,13 @@ TEXTS.update({
         'ref': 'DESIGN.md 4 C03; 3 TAB1 OWN2 TAB5a TAB8 TAB17',
     },
     'C07': {
-        'level': "Decides the ownership discipline per function and per path: payload releases guarded by the ownership bit that describes the memory (with no type store before the test), key-alias ordering, no double release / use after release / dangling released field, every block released-linked-or-returned on every path including failing consumers, duplicate/reference constructors set and clear the bits, and cJSON_Delete releases exactly what each of the 32 kinds of node (two ownership bits x three payload pointers) owns, the node itself last (DEL1); no access path is handed to a release function twice on a feasible path without a store in between, helpers counted for what they dispose of on every path (DBL1). The allocator balance over arbitrary histories is not decided.",
+        'level': "Decides the ownership discipline per function and per path: payload releases guarded by the ownership bit that describes the memory (with no type store before the test), key-alias ordering, no double release / use after release / dangling released field, every block released-linked-or-returned on every path including failing consumers, duplicate/reference constructors set and clear the bits, and cJSON_Delete releases exactly what each of the 32 kinds of node (two ownership bits x three payload pointers) owns, the node itself last (DEL1); no access path is handed to a release function twice on a feasible path without a store in between, helpers counted for what they dispose of on every path (DBL1); an ownership bit is cleared only where, on that path, the node owns what the bit describes - a fresh copy, NULL, a pointer handed over under its previous owner's clear bit, or a node created there (OWN9); no block is released while an object of the caller still points at it (OWN4). The allocator balance over arbitrary histories is not decided.",
         'note': COMMON_NOTE + " Summaries of consume-on-success callees are a frozen table re-checked against the callee bodies on every run.",
         'technique': 'static analysis: disjunctive typestate dataflow (allocation tokens, parent links, NULL correlation) + CFG path rules for flag-guarded releases and key aliasing',
         'ref': 'DESIGN.md 4 C07; 3 OWN2 OWN4 OWN5 OWN6 TAB14; 17 DBL1',
     },
     'C08': {
-        'level': "The failing-allocation index is replaced by 'every allocator call site x its NULL outcome', which the typestate engine enumerates exhaustively for every function of cJSON.c: the NULL outcome is never dereferenced, nothing allocated earlier in the call is left behind, blocks handed to consume-on-success callees are released when that call can fail at the site, and pre-existing trees are untouched before an allocation that can still fail.",
+        'level': "The failing-allocation index is replaced by 'every allocator call site x its NULL outcome', which the typestate engine enumerates exhaustively for every function of cJSON.c: the NULL outcome is never dereferenced, nothing allocated earlier in the call is left behind, blocks handed to consume-on-success callees are released when that call can fail at the site, pre-existing trees are untouched before an allocation that can still fail, and a block that was already stored into an object of the caller is not released on a failure path while that object still points at it.",
         'note': COMMON_NOTE + " Not decided: that the tree still prints the same text afterwards (a value); the run-time allocator configurations.",
         'technique': 'static analysis: fault-outcome splitting in a disjunctive typestate dataflow; computed callee NULL-tolerance; failure-atomicity path rule',
         'ref': 'DESIGN.md 4 C08; 3 OWN1 OWN2 OWN3 OWN7',
@@ -162,7 +162,7 @@ TEXTS.update({
         'ref': 'DESIGN.md 4 C04; 3 TAB5b TAB5c OUT1 OUT3',
     },
     'C05': {
-        'level': "Decides that all print variants funnel into one printer and differ only in buffer set-up, that format influences whitespace stores and lengths only, that the kind switch is exhaustive and masked, that control bytes/quote/backslash are escaped, that the locale decimal point is normalised, that the literals are the JSON ones, and (NUM1) that exactly the non-finite doubles are printed as null: print_number is followed once per class of IEEE doubles (NaN, +Inf, -Inf, finite positive, finite negative, zero) in a class/interval domain. Acceptance by an independent strict parser is not decided.",
+        'level': "Decides that all print variants funnel into one printer and differ only in buffer set-up, that format influences whitespace stores and lengths only, that the kind switch is exhaustive and masked, that control bytes/quote/backslash are escaped, that the locale decimal point is normalised, that the literals are the JSON ones, that no print entry point reads the buffer offset while it does not yet cover the last token a printer wrote (OUT8: the text would be cut there), and (NUM1) that exactly the non-finite doubles are printed as null: print_number is followed once per class of IEEE doubles (NaN, +Inf, -Inf, finite positive, finite negative, zero) in a class/interval domain. Acceptance by an independent strict parser is not decided.",
         'note': COMMON_NOTE + " Not decided: integer formatting, strictness as a language property.",
         'technique': 'static analysis: call-graph funnel check, control-dependence census on the format flag, table extraction, abstract interpretation of print_number over classes of doubles',
         'ref': 'DESIGN.md 4 C05; 3 TAB2 TAB15 TAB3 TAB5b TAB16; 17 NUM1',
